@@ -1,10 +1,10 @@
 #!/bin/bash
 # usage: tools/ben_eval.sh [Cxx ...] — run all 20 checks on scratch copies of /repo with each benign refactor (.cache/ben/Cxx/patch.diff) applied
 cd /verif
-ids=${@:-$(ls .cache/ben)}
+ids=${@:-$(ls benign | sed "s/-b1//")}
 mkdir -p /tmp/bt /tmp/beneval
 for i in $ids; do
-  if [ ! -d /tmp/bt/$i ]; then cp -r /repo /tmp/bt/$i; rm -rf /tmp/bt/$i/target /tmp/bt/$i/.git; (cd /tmp/bt/$i && patch -p1 -s < /verif/.cache/ben/$i/patch.diff) || echo "PATCH FAILED $i"; fi
+  if [ ! -d /tmp/bt/$i ]; then cp -r /repo /tmp/bt/$i; rm -rf /tmp/bt/$i/target /tmp/bt/$i/.git; (cd /tmp/bt/$i && patch -p1 -s < /verif/benign/$i-b1/patch.diff) || echo "PATCH FAILED $i"; fi
 done
 run1() { i=$1; out=/tmp/beneval/$i.txt; : > $out
   for p in C01 C02 C03 C04 C05 C06 C07 C08 C09 C10 C11 C12 C13 C14 C15 C16 C17 C18 C19 C20; do
